@@ -126,8 +126,9 @@ class WireMonitor:
             self.outstanding = [frm, payload, 1, now]
             self.next_frm = (frm + 1) % 8
             return
-        if frm != o[0] and self.reset_since and frm == 0 and not retx:
-            # an RSTACK arrived while frame o[0] was outstanding: numbering restarted
+        if self.reset_since and frm == 0 and not retx:
+            # an RSTACK arrived while frame o[0] was outstanding: numbering restarted (a first transmission numbered 0 is the first frame of
+            # the new session, also when the abandoned frame happened to be number 0 itself; a repeat of that one would carry reTx)
             self._probe("new_frame_after_rstack_midsend")
             self.reset_since = False
             self.outstanding = [frm, payload, 1, now]
